@@ -22,6 +22,7 @@ RULE = ("case = random family + type from the schema-supported grammar (everythi
         "definitions accumulate monotonically and a class's definition is identical whichever build registered it; "
         "builder and one-shot call agree; JSONSchema.from_dict(d).to_dict() == d; the document is JSON-serialisable. "
         "distinct_nontrivial = distinct (type shape, config vector, build variant) triples.")
+RULE += " Additions: plugin chains with refusing plugins in every order; field-level overrides on collections of composite elements; ancestors' schemas built first, compared with a fresh twin family."
 ASSUMPTIONS = ["metaschema validity is decided by the jsonschema package (Draft202012Validator.check_schema)"]
 BUDGET_S = {"quick": 180, "thorough": 1500}
 MIN_EVENTS = {"quick": {"evaluations": 4000, "schemas_ok": 3000, "refs_checked": 1000, "builder_sequences": 400},
